@@ -22,8 +22,8 @@ reproduces every row.  No private name (`_pad_command`, `_unpack`, `_build_heade
               reporting the loss at once / after 2.5 ms / never: errors, close requested?,
               messages that reached handle_message
 """
+import asyncio
 import hashlib
-import inspect
 import itertools
 import logging
 
@@ -229,18 +229,31 @@ def extract(repo):
     rawsocket = common.fresh_import(repo, 'aiorpcx.rawsocket')
     mods = (framing, session, rawsocket)
 
-    # ---- defaults (public constructor signature / class attribute), cross-checked by frame()
-    sig = inspect.signature(framing.BitcoinFramer.__init__).parameters
+    # ---- defaults of BitcoinFramer(): the magic is what frame() puts in front; the two limits
+    # are found by bisection on the declared length the default framer still accepts
     fr = framing.BitcoinFramer()
     empty = bytes(fr.frame((b'', b'')))
     default_magic = empty[:-20] if len(empty) >= 20 else b''
-    if 'magic' in sig and isinstance(sig['magic'].default, (bytes, bytearray)) \
-            and bytes(sig['magic'].default) != default_magic:
-        default_magic = b''            # frame() does not start with the constructor's default
-    mb_default = sig['max_block_size'].default if 'max_block_size' in sig else None
-    if not isinstance(mb_default, int):
-        mb_default = getattr(framing, 'MAX_BLOCK_SIZE', 0)
-    mp_default = getattr(fr, 'max_payload_size', 0)
+
+    async def accepts(cmd, n):
+        out = await c07_fake.recv_outcomes(
+            framing, framing.BitcoinFramer(), [mk_header(default_magic, cmd, n, dsha4(b''))])
+        return not (out and out[0] == ('E', 'OversizedPayloadError'))
+
+    async def threshold(cmd):
+        """largest declared length accepted for `cmd` (acceptance is downward closed)"""
+        if not await accepts(cmd, 0):
+            return 0
+        lo, hi = 0, 2 ** 32 - 1
+        if await accepts(cmd, hi):
+            return hi
+        while hi - lo > 1:
+            mid = (lo + hi) // 2
+            if await accepts(cmd, mid):
+                lo = mid
+            else:
+                hi = mid
+        return lo
 
     async def probes():
         if not await c07_fake.limit_takes_effect(framing):
@@ -273,8 +286,13 @@ def extract(repo):
                 kind='client', lose=lose)
             sess.append((g, _enc(outs), obs['errors'], obs['closed'],
                          [(list(c), list(p)) for c, p in obs['delivered']]))
-        return first, grid, sess, grace
-    first, grid, sess, grace = _run(probes())
+        _proto, fake, dsess = c07_fake.connect(rawsocket, session.MessageSession, None,
+                                               session.SessionKind.CLIENT, None)
+        dflt = type(dsess.default_framer()).__name__
+        fake.abort()
+        await asyncio.sleep(0.01)
+        return first, grid, sess, grace, await threshold(b'x'), await threshold(b'block'), dflt
+    first, grid, sess, grace, mp_default, mb_default, default_framer = _run(probes())
 
     ftab = frame_table(framing)
     pprobe = pack_probe(framing)
@@ -285,10 +303,6 @@ def extract(repo):
         payloads.add(bytes(p))
     payloads.add(b'')
     ck_table = sorted((p, dsha4(p)) for p in payloads)
-    try:
-        default_framer = type(session.MessageSession.default_framer(None)).__name__
-    except Exception:      # noqa
-        default_framer = '?'
     classes = {k: getattr(framing, k, None) for k in CODE}
     return {
         'size_first': first == ('E', 'OversizedPayloadError'),
@@ -352,8 +366,10 @@ def render(f):
         '/-- a header with wrong magic AND an over-limit length raised `OversizedPayloadError`\n'
         '    (false: `BadMagicError`) -/\n'
         f'def sizeFirst : Bool := {_bool(f["size_first"])}\n'
-        '/-- `BitcoinFramer().frame((b"", b""))` without its last 20 bytes / the constructor default -/\n'
+        '/-- `BitcoinFramer().frame((b"", b""))` without its last 20 bytes -/\n'
         f'def defaultMagic : List UInt8 := {lb(f["default_magic"])}\n'
+        '/-- largest declared length `BitcoinFramer()` accepts for an ordinary command / for `block`\n'
+        '    (found by bisection on the running code) -/\n'
         f'def maxPayloadSize : Nat := {f["max_payload_size"]}\n'
         f'def maxBlockSize : Nat := {f["max_block_size"]}\n'
         f'def gridMagic : List UInt8 := {lb(f["grid_magic"])}\n'
